@@ -376,6 +376,13 @@ func c09TBLSRound(t *rapid.T, ev *evProp, c blsCombo, ts sign.ThresholdScheme, n
 			desc = append(desc, fmt.Sprintf("dup%d", idx))
 		}
 	}
+	// further copies of valid partials anywhere in the list (a copy need not follow its original)
+	for k := rapid.IntRange(0, 3).Draw(t, "farDups"); k > 1 && nvalid > 0; k-- {
+		idx := subset[uniformInt(t, 0, nvalid-1, "farDup")]
+		pos := uniformInt(t, 0, len(list), "farDupPos")
+		list = append(list[:pos], append([][]byte{append([]byte(nil), partials[idx]...)}, list[pos:]...)...)
+		desc = append(desc[:pos], append([]string{fmt.Sprintf("dup%d", idx)}, desc[pos:]...)...)
+	}
 	if rapid.Bool().Draw(t, "tailinv") {
 		b, kd := mkInvalid("tail")
 		list = append(list, b)
